@@ -1,9 +1,107 @@
+import RsslVerif.Model.Include
 import RsslVerif.Driver.Util
-/-! Line-protocol front end of the C12 model (stub until the model is built). -/
+/-! Line-protocol front end of the C12 model (request syntax: see harness/src/c12.rs). -/
 namespace RsslVerif.Driver.C12
+open RsslVerif.Model.Macro RsslVerif.Model.Include RsslVerif.Driver
+
+def isIdentString (s : String) : Bool :=
+  match s.toList with
+  | [] => false
+  | c :: r => (c.isAlpha || c == '_') && r.all (fun d => d.isAlphanum || d == '_')
+
+def parseTok (s : String) : Option Tok :=
+  if s == "~" then some .ws
+  else if s == "(" then some .lparen
+  else if s == ")" then some .rparen
+  else if s == "," then some .comma
+  else if s == "##" then some .hashhash
+  else if ["+", "-", "*", ";", "=", "{", "}"].contains s then some (.punct s)
+  else if isDigitString s then some (.int s)
+  else if isIdentString s then some (.id s)
+  else none
+
+def parseToks (s : String) : Option (List Tok) :=
+  sequenceOpt (((s.splitOn " ").filter (· ≠ "")).map parseTok)
+
+def located (ts : List Tok) : List PTok := ts.map (⟨·, true⟩)
+
+def parseLine (s : String) : Option Line :=
+  let s := s.trimAscii.toString
+  let (k, rest) := match s.splitOn " " with
+    | [] => ("", "")
+    | k :: r => (k, " ".intercalate r)
+  match k with
+  | "D" => (parseToks rest).map (fun t => .define (located t))
+  | "U" => (parseToks rest).map (fun t => .undef (located t))
+  | "I" => some (.incl rest.trimAscii.toString)
+  | "O" => some .pragmaOnce
+  | "W" => some .pragmaWarning
+  | "T" => (parseToks rest).map (fun t => .text (located t))
+  | _ => none
+
+def parseFile (s : String) : Option (String × List Line) :=
+  match s.splitOn "|" with
+  | [] => none
+  | head :: ls =>
+    let name := match head.trimAscii.toString.splitOn ">" with
+      | n :: _ => n
+      | [] => ""
+    (sequenceOpt (ls.map parseLine)).map (fun l => (name, l))
+
+def parseApi (s : String) : Option (List (String × List Tok)) :=
+  if s == "-" then some []
+  else sequenceOpt ((s.splitOn "|").map fun e =>
+    match (e.trimAscii.toString.splitOn " ").filter (· ≠ "") with
+    | [] => none
+    | n :: v => (sequenceOpt (v.map parseTok)).map (fun t => (n, t)))
+
+def handlerOf (files : List (String × List Line)) : Handler :=
+  fun n => (files.find? (·.1 == n)).map (·.2)
+
+def showTok : Tok → String
+  | .id s | .int s | .punct s => s
+  | .lparen => "("
+  | .rparen => ")"
+  | .comma => ","
+  | .ws => "~"
+  | .endline => "~"
+  | .hashhash => "##"
+  | .concat => "?Concat"
+  | .arg i => "?MacroArg(" ++ toString i ++ ")"
+
+def showErr : Err → String
+  | .invalidDefine => "err InvalidDefine"
+  | .invalidUndef => "err InvalidUndef"
+  | .macroRequiresArguments n => "err MacroRequiresArguments(" ++ n ++ ")"
+  | .macroArgumentsNeverEnd => "err MacroArgumentsNeverEnd"
+  | .macroExpectsDifferentNumberOfArguments => "err MacroExpectsDifferentNumberOfArguments"
+  | .concatMissingLeftToken => "err ConcatMissingLeftToken"
+  | .concatMissingRightToken => "err ConcatMissingRightToken"
+  | .concatFailed => "err ConcatFailed"
+  | .failedToFindFile n => "err FailedToFindFile(" ++ n ++ ")"
+  | .panic site => "panic " ++ site
+  | .hang => "model-hang"
+  | .guard w => "model-guard " ++ w
+  | .unsupported w => "unsupported " ++ w
+  | .includeFuel => "unsupported include depth"
+
+def run (api : List (String × List Tok)) (files : List (String × List Line)) : String :=
+  match files with
+  | [] => "bad-request"
+  | (entry, _) :: _ =>
+    match preprocess (handlerOf files) 64 api entry with
+    | .error e => showErr e
+    | .ok ts =>
+      match prepare ts with
+      | .error e => showErr e
+      | .ok out => (" ".intercalate ("ok" :: out.map showTok))
 
 def handle (op : String) (args : List String) : String :=
-  let _ := (op, args)
-  "unsupported-op"
+  match op, args with
+  | "C12.run", api :: files =>
+    match parseApi api, sequenceOpt (files.map parseFile) with
+    | some api, some files => run api files
+    | _, _ => "bad-request"
+  | _, _ => "unsupported-op"
 
 end RsslVerif.Driver.C12
